@@ -242,12 +242,45 @@ def r19_3(chk):
         return True
 
     chk.decide(only_when(commit, True), "R19.3", key(m, "atomic_write.__exit__", "commit only on success"), m.loc(fn), "self._close_func runs only when exc_type is None", "the commit runs although an exception is in flight: a failed write replaces the destination with partial content")
-    chk.decide(bool(cleanup) and only_when(cleanup, False), "R19.3", key(m, "atomic_write.__exit__", "cleanup on failure"), m.loc(fn), "temp dir removed when an exception is in flight", "the failure branch does not remove the temporary directory")
+    def reached_on_failure(found):
+        # some cleanup call is reached whenever an exception is in flight (exc_type is not None); an unconditional
+        # cleanup (in a finally) qualifies, one that needs any other condition does not
+        for _, cond in found:
+            names = T.atoms(cond)
+            if any("exc_type" not in a for a in names):
+                continue
+            env = {}
+            for a in names:
+                env[a] = False if "is None" in a and "is not None" not in a else True
+            if T.evaluate(cond, env):
+                return True
+        return False
+
+    chk.decide(bool(cleanup) and reached_on_failure(cleanup), "R19.3", key(m, "atomic_write.__exit__", "cleanup on failure"), m.loc(fn), "temp dir removed when an exception is in flight", "the failure branch does not remove the temporary directory")
     # the temporary file is closed (flushed) before it is moved into place
     g2 = build(fn)
     closes = g2.nodes_containing(lambda x: isinstance(x, ast.Call) and norm(x.func) == "self._file.close")
     commits = g2.nodes_containing(lambda x: isinstance(x, ast.Call) and norm(x.func) == "self._close_func")
     chk.decide(bool(closes) and all(g2.dominated_by(c_, closes)[0] for c_ in commits), "R19.3", key(m, "atomic_write.__exit__", "file closed before commit"), m.loc(fn), "self._file.close() dominates the commit", "the temporary file can be moved into place before it is closed: buffered content is missing from the committed file")
+    # a commit (or close) that raises must not leave the temporary directory behind either
+    ci_aw2 = m.cls("atomic_write")
+
+    def _removes(x):
+        if not isinstance(x, ast.Call):
+            return False
+        if (call_name(x) or "").endswith("rmtree"):
+            return True
+        if isinstance(x.func, ast.Attribute) and norm(x.func.value) == "self" and isinstance(ci_aw2.methods.get(x.func.attr), ast.FunctionDef):
+            inner = T.reach_conditions(ci_aw2.methods[x.func.attr], lambda n: isinstance(n, ast.Call) and (call_name(n) or "").endswith("rmtree"), set())
+            return bool(inner) and all(c == T.TRUE for _, c in inner)
+        return False
+
+    rm_nodes = g2.nodes_containing(_removes)
+    for c_ in commits + closes:
+        has_x = any(k_ == "x" for _, k_ in c_.succ)
+        okx = bool(rm_nodes) and (not has_x or g2.always_followed_by(c_, rm_nodes, exceptional=True, from_kinds=("x",))[0])
+        what = "commit" if c_ in commits else "close"
+        chk.decide(okx, "R19.3", key(m, "atomic_write.__exit__", f"temp dir removed when the {what} raises"), m.loc(c_.ast), "every exceptional path from it passes the cleanup", f"when `{norm(c_.ast)[:50]}` raises (the destination is a directory, the disk is full) __exit__ is left without removing the temporary directory")
     close = m.func("atomic_write.close")
     good = any(isinstance(c, ast.Call) and norm(c.func) == "self.__exit__" and all(isinstance(a, ast.Constant) and a.value is None for a in c.args) for c in walk_no_nested(close))
     chk.decide(good, "R19.3", key(m, "atomic_write.close", "close == successful exit"), m.loc(close), "close() is __exit__(None, None, None)", "close() no longer delegates to __exit__(None, None, None)")
